@@ -49,10 +49,22 @@ FromDataFails(e) ==
         ELSE {"foreign-exception"})
   \cup (IF e.rerun = "F" THEN {"nondeterministic"} ELSE {})
 
+(* C04/C12: building a converter for a documented type never fails; an unsupported or      *)
+(* ill-formed one (doc = "F") fails with TypeError / UnsupportedAnnotation, and where the   *)
+(* statement demands refusal (must = "fail": duplicate tag values) it does fail.            *)
 BuildFails(e) ==
-  IF e.out.k = "ok" THEN {}
+  IF e.out.k = "ok" THEN (IF e.must = "fail" THEN {"build-must-fail"} ELSE {})
   ELSE IF e.doc = "T" THEN {"build-fails-documented"}
   ELSE IF e.out.c \in {"TypeError", "UnsupportedAnnotation"} THEN {} ELSE {"build-exception-class"}
+
+(* C12: an unknown, absent or ill-kinded tag is a ConvertError that names the tag *)
+TagMsgFails(e) ==
+  LET T == e.ty  v == e.val IN
+  IF T.k # "tagged" \/ v.k # "map" \/ e.out.k # "reject" THEN {}
+  ELSE LET te == TagExtract(T, v) IN
+       IF te.ok /\ TagVariant(T, te.tag) # 0 THEN {}
+       ELSE IF e.msg.tag = "T" \/ (T.lay = "adj" /\ e.msg.tk = "T") \/ (T.lay = "ext" /\ e.msg.tags = "T")
+            THEN {} ELSE {"tag-not-named"}
 
 (* C03: the quick attempt fails iff the diagnostic pass yields a tree *)
 PassesFails(e) ==
@@ -100,9 +112,20 @@ FixpointFails(e) ==
        IF x # Img(e.ty, e.val) THEN {}
        ELSE FixOne(e.out, x, "fixpoint") \cup FixOne(e.nat, x, "native") \cup FixOne(e.twice, x, "twice")
 
+(* C11: serialising a union value uses a member that accepts it *)
+UnionSerFails(e) ==
+  IF e.have = "F" \/ Verdict(e.ty, e.val) # "A" THEN {}
+  ELSE LET x == Dec(e.x) IN
+       IF x # Img(e.ty, e.val) THEN {}
+       ELSE IF e.d.k # "ok" THEN {"union-serialise-failed"}
+       ELSE IF ~\E i \in DOMAIN e.ty.alts : SerOK(e.ty.alts[i], x, e.d.x) THEN {"union-serialised-by-no-member"}
+       ELSE {}
+
 Fails(e) ==
   CASE e.op = "from_data" -> FromDataFails(e)
+    [] e.op = "unionser"  -> UnionSerFails(e)
     [] e.op = "build"     -> BuildFails(e)
+    [] e.op = "tagmsg"    -> TagMsgFails(e)
     [] e.op = "passes"    -> PassesFails(e)
     [] e.op = "snapshot"  -> SnapshotFails(e)
     [] e.op = "roundtrip" -> RoundTripFails(e)
